@@ -38,7 +38,7 @@ typedef struct pair1_sock pair1_sock;
 static void pair1_pipe_send_cb(void *);
 static void pair1_pipe_recv_cb(void *);
 static void pair1_pipe_fini(void *);
-static void pair1_send_sched(pair1_sock *);
+static void pair1_send_sched(pair1_sock *, pair1_pipe *);
 static void pair1_pipe_send(pair1_pipe *, nni_msg *);
 
 // pair1_sock is our per-socket protocol private structure.
@@ -297,7 +297,7 @@ pair1_pipe_start(void *arg)
 	s->rd_ready = false;
 	nni_mtx_unlock(&s->mtx);
 
-	pair1_send_sched(s);
+	pair1_send_sched(s, p);
 
 	// And the pipe read of course.
 	nni_pipe_recv(p->pipe, &p->aio_recv);
@@ -378,24 +378,31 @@ pair1_pipe_recv_cb(void *arg)
 		nni_lmq_put(&s->rmq, msg);
 		nni_aio_set_msg(&p->aio_recv, NULL);
 		nni_pipe_recv(pipe, &p->aio_recv);
-	} else {
+	} else if (s->p == p) {
 		s->rd_ready = true;
+	} else {
+		// This pipe is no longer our peer (it is being torn
+		// down), so nothing will ever pick the message up here.
+		nni_msg_free(msg);
+		nni_aio_set_msg(&p->aio_recv, NULL);
 	}
 	nni_pollable_raise(&s->readable);
 	nni_mtx_unlock(&s->mtx);
 }
 
 static void
-pair1_send_sched(pair1_sock *s)
+pair1_send_sched(pair1_sock *s, pair1_pipe *p)
 {
-	pair1_pipe *p;
 	nni_msg    *m;
 	nni_aio    *a = NULL;
 	size_t      l = 0;
 
 	nni_mtx_lock(&s->mtx);
 
-	if ((p = s->p) == NULL) {
+	// Only the pipe that is our peer may take the next message: the
+	// send completion of a pipe that is being torn down can arrive
+	// after a new peer has been attached (and is busy sending).
+	if (s->p != p) {
 		nni_mtx_unlock(&s->mtx);
 		return;
 	}
@@ -448,7 +455,7 @@ pair1_pipe_send_cb(void *arg)
 		return;
 	}
 
-	pair1_send_sched(p->pair);
+	pair1_send_sched(p->pair, p);
 }
 
 static void
